@@ -36,6 +36,9 @@ func TestSync(t *testing.T) {
 		t.Fatalf("unknown property %s", prop)
 	}
 	syncT = t
+	if devnull, err := os.OpenFile(os.DevNull, os.O_WRONLY, 0); err == nil {
+		os.Stderr = devnull // the clients' optional loggers write there
+	}
 	r := NewRun(prop, tier, seed)
 	currentRun = r
 	gen(r)
@@ -105,6 +108,7 @@ type labConn struct {
 	onWrite func(b []byte) // reaction of the scripted servers to a client transmission
 	runaway bool
 	failWrites int // the next writes fail
+	closeErr   bool // Close reports an error (it still closes)
 }
 
 func newLabConn() *labConn {
@@ -137,7 +141,13 @@ func (c *labConn) WriteTo(p []byte, addr net.Addr) (int, error) {
 	}
 	return len(p), nil
 }
-func (c *labConn) Close() error                       { c.once.Do(func() { close(c.closed) }); return nil }
+func (c *labConn) Close() error {
+	c.once.Do(func() { close(c.closed) })
+	if c.closeErr {
+		return fmt.Errorf("use of closed network connection")
+	}
+	return nil
+}
 func (c *labConn) LocalAddr() net.Addr                { return &net.UDPAddr{Port: 68} }
 func (c *labConn) SetDeadline(t time.Time) error      { return nil }
 func (c *labConn) SetReadDeadline(t time.Time) error  { return nil }
@@ -213,7 +223,15 @@ func timedCallV4(tau time.Duration, tries int, cancelAt, closeAt *time.Duration,
 	bubbleNote = fmt.Sprintf("nclient4 timed call: timeout %v, tries %d, context ends %s, close %s, deliveries %x", tau, tries, durStr(cancelAt), durStr(closeAt), ds)
 	runBubble(func(t *testing.T) {
 		conn := newLabConn()
-		c, err := nclient4.NewWithConn(conn, labHW, nclient4.WithTimeout(tau), nclient4.WithRetry(tries))
+		variant := (int(tau/time.Millisecond) + 2*tries + len(ds)) % 3 // which of the optional loggers is installed
+		opts4 := []nclient4.ClientOpt{nclient4.WithTimeout(tau), nclient4.WithRetry(tries)}
+		if variant == 1 {
+			opts4 = append(opts4, nclient4.WithSummaryLogger())
+		} else if variant == 2 {
+			opts4 = append(opts4, nclient4.WithDebugLogger())
+		}
+		conn.closeErr = closeAt != nil && (*closeAt/time.Millisecond)%2 == 1 // the socket reports an error when closed (already shut by its owner)
+		c, err := nclient4.NewWithConn(conn, labHW, opts4...)
 		if err != nil {
 			t.Fatal(err)
 		}
@@ -223,7 +241,8 @@ func timedCallV4(tau time.Duration, tries int, cancelAt, closeAt *time.Duration,
 			c.SendAndRead(context.Background(), &net.UDPAddr{IP: net.IPv4bcast, Port: 67}, preq, nclient4.IsMessageType(dhcpv4.MessageTypeOffer))
 		}
 		conn.rebase()
-		req, _ := dhcpv4.NewDiscovery(labHW, dhcpv4.WithTransactionID(dhcpv4.TransactionID{0xaa, 0xbb, 0xcc, 0xdd}))
+		req, _ := dhcpv4.NewDiscovery(labHW, dhcpv4.WithTransactionID(dhcpv4.TransactionID{0xaa, 0xbb, 0xcc, 0xdd}),
+			dhcpv4.WithRequestedOptions(dhcpv4.OptionNTPServers, dhcpv4.OptionDomainName, dhcpv4.OptionBootfileName, dhcpv4.OptionRouter)) // not in code order
 		for _, d := range ds {
 			at := msArg(d[:4])
 			mt := dhcpv4.MessageTypeAck // rejected by the matcher
@@ -295,7 +314,15 @@ func timedCallV6(tau time.Duration, tries int, cancelAt, closeAt *time.Duration,
 	bubbleNote = fmt.Sprintf("nclient6 timed call: timeout %v, tries %d, context ends %s, close %s, deliveries %x", tau, tries, durStr(cancelAt), durStr(closeAt), ds)
 	runBubble(func(t *testing.T) {
 		conn := newLabConn()
-		c, err := nclient6.NewWithConn(conn, labHW, nclient6.WithTimeout(tau), nclient6.WithRetry(tries))
+		variant := (int(tau/time.Millisecond) + 2*tries + len(ds)) % 3
+		opts6 := []nclient6.ClientOpt{nclient6.WithTimeout(tau), nclient6.WithRetry(tries)}
+		if variant == 1 {
+			opts6 = append(opts6, nclient6.WithSummaryLogger())
+		} else if variant == 2 {
+			opts6 = append(opts6, nclient6.WithDebugLogger())
+		}
+		conn.closeErr = closeAt != nil && (*closeAt/time.Millisecond)%2 == 1
+		c, err := nclient6.NewWithConn(conn, labHW, opts6...)
 		if err != nil {
 			t.Fatal(err)
 		}
@@ -305,7 +332,7 @@ func timedCallV6(tau time.Duration, tries int, cancelAt, closeAt *time.Duration,
 			c.SendAndRead(context.Background(), nclient6.AllDHCPRelayAgentsAndServers, preq, nclient6.IsMessageType(dhcpv6.MessageTypeAdvertise))
 		}
 		conn.rebase()
-		req, _ := dhcpv6.NewSolicit(labHW)
+		req, _ := dhcpv6.NewSolicit(labHW, dhcpv6.WithRequestedOptions(dhcpv6.OptionNTPServer, dhcpv6.OptionSNTPServerList, dhcpv6.OptionBootfileURL)) // not in code order
 		req.TransactionID = dhcpv6.TransactionID{1, 2, 3}
 		for _, d := range ds {
 			at := msArg(d[:4])
